@@ -89,6 +89,10 @@ pub(super) enum SignificantInstr {
     ///
     /// Used by "continue" and "finish".
     Halt,
+    /// Call a subroutine. `JSR`, `JSRR` or `CALL`.
+    ///
+    /// Used by "step".
+    Call,
 }
 
 impl TryFrom<u16> for SignificantInstr {
@@ -102,6 +106,10 @@ impl TryFrom<u16> for SignificantInstr {
             0xD if (instr >> 10) & 0b11 == 0b10 => Ok(SignificantInstr::Return),
             // `HALT` is `TRAP 0x25`
             0xF if instr & 0xFF == 0x25 => Ok(SignificantInstr::Halt),
+            // `JSR` and `JSRR`
+            0x4 => Ok(SignificantInstr::Call),
+            // `CALL` is `0xD(stack) 0b11 ...`
+            0xD if (instr >> 10) & 0b11 == 0b11 => Ok(SignificantInstr::Call),
             _ => Err(()),
         }
     }
@@ -338,8 +346,14 @@ impl Debugger {
 
             Command::StepOver => {
                 Self::check_halt(instr)?;
-                self.status = Status::StepOver {
-                    return_addr: state.pc().wrapping_add(1),
+                self.status = if instr == Some(SignificantInstr::Call) {
+                    // Run the whole subroutine, until control returns to the following address
+                    Status::StepOver {
+                        return_addr: state.pc().wrapping_add(1),
+                    }
+                } else {
+                    // Any other instruction is just executed, wherever it leads
+                    Status::StepInto { count: 0 }
                 };
                 self.should_echo_pc = true;
             }
